@@ -8,7 +8,9 @@ use indexmap::{IndexMap, IndexSet};
 use serde::{Deserialize, Serialize};
 use serde_json::{json, Value};
 
-use super::numeric::{check_number_bounds, normalize_integer_bounds, rx_float_range, rx_int_range};
+use super::numeric::{
+    check_number_bounds, gcd, normalize_integer_bounds, rx_float_range, rx_int_range,
+};
 use super::schema::{build_schema, ArraySchema, ObjectSchema, OptSchemaExt, Schema};
 use super::shared_context::PatternPropertyCache;
 use super::RetrieveWrapper;
@@ -1026,9 +1028,24 @@ fn signed_multiple_of_ast(coef: u32, exp: u32) -> Result<RegexAst> {
     if !matches!(max_remainder, Some(v) if v <= u32::MAX as u64) {
         bail!("Value for 'multipleOf' has too many digits: {coef}e-{exp}");
     }
+    // derivre's `MultipleOf(c, k)` matches literals with no fraction or with exactly `k`
+    // fractional digits.  A multiple can also be written with fewer digits (`8.5` for
+    // `multipleOf 0.25`) or with trailing zeros (`8.500`, `3.0`): with `j` digits dropped
+    // the remaining digits have to be divisible by `coef / gcd(coef, 10^j)`.
+    let spelling = |k: u32| RegexAst::MultipleOf(coef / gcd(coef, 10u32.pow(exp - k)), k);
+    let mut spellings = vec![RegexAst::Concat(vec![
+        spelling(0),
+        RegexAst::Regex("(\\.0+)?".to_string()),
+    ])];
+    if exp > 0 {
+        spellings.push(RegexAst::Concat(vec![
+            RegexAst::Or((1..=exp).map(spelling).collect()),
+            RegexAst::Regex("0*".to_string()),
+        ]));
+    }
     Ok(RegexAst::Concat(vec![
         RegexAst::Regex("-?".to_string()),
-        RegexAst::MultipleOf(coef, exp),
+        RegexAst::Or(spellings),
     ]))
 }
 
